@@ -16,6 +16,9 @@ import (
 	"github.com/oneconcern/datamon/pkg/core"
 	"github.com/oneconcern/datamon/pkg/model"
 	"github.com/oneconcern/datamon/pkg/storage"
+	"github.com/oneconcern/datamon/pkg/storage/localfs"
+	"github.com/spf13/afero"
+	"go.uber.org/zap"
 
 	"verif/harness/store"
 	"verif/harness/vutil"
@@ -168,6 +171,7 @@ func cafsCorrupt(args []string) error {
 	seed := fl.Uint64("seed", 1, "seed")
 	download := fl.Bool("download", false, "also observe the damage through a bundle download (core.Publish)")
 	work := fl.String("work", "", "scratch directory (for --download)")
+	retryDest := fl.Bool("retry-dest", false, "download only, into a destination store that retries failed writes (the default of localfs.New and of the CLI): one damage per case, concurrency 1")
 	_ = fl.Parse(args)
 	ref := refine{L: *cells, Lambda: *lambda, Boundary: *boundary, Seed: *seed}
 	cfg := &cafsCfg{ref: ref, crc: *crc}
@@ -350,6 +354,60 @@ func cafsCorrupt(args []string) error {
 					return outcome(p[:n], err, content[lo:hi]), fmt.Sprintf("ReadAt(%d,%d)", lo, hi-lo)
 				})
 			}
+			// a leaf that this reader instance already fetched and verified, read again after it left the
+			// instance's one-leaf cache and was damaged at rest: an error, or the bytes first delivered
+			nLeaves := (len(content) + *lambda - 1) / *lambda
+			if !c.IsRoot && c.Leaf >= 1 && c.Leaf <= nLeaves && nLeaves >= 2 {
+				lo := (c.Leaf - 1) * *lambda
+				hi := lo + *lambda
+				if hi > len(content) {
+					hi = len(content)
+				}
+				guard("readat-reread", []string{"error", "exact"}, func() (string, string) {
+					for k, b := range snapshot {
+						w.RawSet("blob", k, b)
+					}
+					cfg1 := *cfg
+					cfg1.cache1 = true
+					f1, err := newCafs(&cfg1, backend, 2)
+					if err != nil {
+						panic(err)
+					}
+					rat, err := f1.GetAt(ctx, pr.Key)
+					if err != nil {
+						return "wrong", "GetAt of the undamaged object failed"
+					}
+					p := make([]byte, hi-lo)
+					n, err := rat.ReadAt(p, int64(lo))
+					if outcome(p[:n], err, content[lo:hi]) != "exact" {
+						return "wrong", "first ReadAt of the undamaged object"
+					}
+					for j := 0; j < nLeaves; j++ {
+						if j == c.Leaf-1 {
+							continue
+						}
+						qlo, qhi := j**lambda, (j+1)**lambda
+						if qhi > len(content) {
+							qhi = len(content)
+						}
+						q := make([]byte, qhi-qlo)
+						n, err := rat.ReadAt(q, int64(qlo))
+						if outcome(q[:n], err, content[qlo:qhi]) != "exact" {
+							return "wrong", "ReadAt of another leaf of the undamaged object"
+						}
+					}
+					if d.delete {
+						w.RawDelete("blob", tk.String())
+					} else {
+						w.RawSet("blob", tk.String(), d.data)
+					}
+					for k, b := range d.extra {
+						w.RawSet("blob", k, b)
+					}
+					n, err = rat.ReadAt(p, int64(lo))
+					return outcome(p[:n], err, content[lo:hi]), fmt.Sprintf("one reader, cache of one leaf: ReadAt(%d,%d) ok, other leaves read, blob damaged, ReadAt(%d,%d) again", lo, hi-lo, lo, hi-lo)
+				})
+			}
 		}
 	}
 	runDownload := func(i int, line []byte, r *vutil.BehResult, c corruptCase, content []byte) {
@@ -384,7 +442,19 @@ func cafsCorrupt(args []string) error {
 		if !c.IsRoot {
 			what = "leaf"
 		}
-		for _, d := range variants(c, ref, orig, false, otherLeaf) {
+		vs := variants(c, ref, orig, false, otherLeaf)
+		concs := []int{1, 4}
+		mkDest := localStore
+		if *retryDest {
+			if len(vs) > 1 {
+				vs = vs[:1]
+			}
+			concs = []int{1}
+			mkDest = func(dir string) storage.Store {
+				return localfs.New(afero.NewBasePathFs(afero.NewOsFs(), dir), localfs.WithLogger(zap.NewNop()))
+			}
+		}
+		for _, d := range vs {
 			for k, b := range snapshot {
 				e.w.RawSet("blob", k, b)
 			}
@@ -397,11 +467,11 @@ func cafsCorrupt(args []string) error {
 				e.w.RawSet("blob", k, b)
 			}
 			real := c.Damaged && (d.delete || !bytes.Equal(d.data, orig))
-			for _, conc := range []int{1, 4} {
+			for _, conc := range concs {
 				e.conc = conc
 				dstores, _ := e.client()
 				dir := e.scratch("dl")
-				b := e.newBundle(dstores, "r1", e.ksuidFor(1), localStore(dir))
+				b := e.newBundle(dstores, "r1", e.ksuidFor(1), mkDest(dir))
 				var err error
 				panicked := vutil.Guard(r, 0, "download", nil, func() { err = core.Publish(context.Background(), b) })
 				r.Steps++
@@ -431,8 +501,10 @@ func cafsCorrupt(args []string) error {
 		}
 	}
 	runBoth := func(i int, line []byte, r *vutil.BehResult) {
-		run(i, line, r)
-		if *download {
+		if !*retryDest {
+			run(i, line, r)
+		}
+		if *download || *retryDest {
 			var c corruptCase
 			_ = json.Unmarshal(line, &c)
 			runDownload(i, line, r, c, ref.bytesOf(c.Content))
